@@ -127,8 +127,12 @@ def r2_save_shape(P, rep, ctx):
               construct="open mode of save", message=f"IH5UserBlock.save opens with modes {[s['mode'] for s in sinks]} (must be exactly one 'r+b')")
     # bounded write: the assertion len(data) < USER_BLOCK_SIZE dominates the write
     asserts = [n.idx for n in g.nodes if n.kind == "stmt" and isinstance(n.stmt, ast.Assert) and "USER_BLOCK_SIZE" in norm(n.stmt.test) and "len(" in norm(n.stmt.test)]
+    from .sem import F as _F
+    fsem = _F(ctx, fi)
+    # ... or the explicit form: the write is reached only where `len(data) < USER_BLOCK_SIZE` was found true (`if not ..: raise`)
+    bound_edges = fsem.tests("len(__) < USER_BLOCK_SIZE")
     for w in wdata:
-        rep.check(g.every_path_passes(asserts, w), "C11.R2", fi.qual, "size bound is checked before the user block is written", fi.loc(g.nodes[w].stmt),
+        rep.check(fsem.hit_before(w, nodes=asserts, edges=bound_edges), "C11.R2", fi.qual, "size bound is checked before the user block is written", fi.loc(g.nodes[w].stmt),
                   construct="len(data) < USER_BLOCK_SIZE before write", message="user-block data is written without the size bound check (would overwrite HDF5 payload)")
 
 
